@@ -627,6 +627,21 @@ impl Callbacks for Cb {
                             }
                         }
                     }
+                    if let ty::Ref(_, inner, _) = ty.kind() {
+                        if inner.is_str() && tcx.generics_of(did).count() == 0 {
+                            if let Ok(cv) = tcx.const_eval_poly(did) {
+                                if let Some(bytes) = cv.try_get_slice_bytes_for_diagnostics(tcx) {
+                                    o.push(("str", J::Str(String::from_utf8_lossy(bytes).to_string())));
+                                }
+                            }
+                        }
+                    }
+                    if matches!(ty.kind(), ty::Adt(..) | ty::Tuple(..)) && tcx.generics_of(did).count() == 0 {
+                        if let Ok(cv) = tcx.const_eval_poly(did) {
+                            let c = mir::Const::Val(cv, ty);
+                            o.push(("repr", J::Str(with_no_trimmed_paths!(format!("{}", c)))));
+                        }
+                    }
                     o.push(("sp", cx.span(tcx.def_span(did))));
                     consts.push(J::obj(o));
                 }
